@@ -23,6 +23,7 @@ import SharkVerif.Lemmas.IterAdvance
 import SharkVerif.Lemmas.Subset
 import SharkVerif.Lemmas.View
 import SharkVerif.Lemmas.ByClass
+import SharkVerif.Lemmas.RepartitionLoop
 namespace SharkVerif.C03
 open SharkVerif.CheckedNat SharkVerif.Gen.BatchArith SharkVerif.BatchArith SharkVerif.Dataset
 
@@ -186,6 +187,19 @@ theorem repartition_flat (d d' : Data ε) (sizes : List Nat) (h : d.repartition 
   obtain ⟨_, hs, _, _, rfl⟩ := h
   rw [d.numberOfElements_eq] at hs
   exact ⟨splitBySizes_flatten _ _ hs, splitBySizes_lengths _ _ (Nat.le_of_eq hs), rfl⟩
+
+/-- **the copy loop of `repartition`** (`SharedContainer::repartition`: currentBatch / currentBatchIndex walking the
+old batches element by element) computes exactly the abstract `repartition` — same success condition, same result -/
+theorem repartition_loop_eq (d : Data ε) (sizes : List Nat) : d.repartitionByLoop sizes = d.repartition sizes := by
+  unfold Data.repartitionByLoop Data.repartition
+  by_cases h1 : sizes.sum = d.numberOfElements
+  · by_cases h2 : (d.nonEmptyBatches && sizes.all (· > 0)) = true
+    · have h2' := h2
+      simp only [Bool.and_eq_true] at h2'
+      have := repartition_loop_refines d sizes h2'.1 h2'.2 h1
+      simp [require, h1, h2, this, ofOpt, bind, Except.bind, pure, Except.pure]
+    · simp [require, h1, h2, bind, Except.bind]
+  · simp [require, h1, bind, Except.bind]
 
 /-- `splitBatch`: same elements in the same order -/
 theorem splitBatch_flat (d d' : Data ε) (b k : Nat) (h : d.splitBatch b k = .ok d') :
